@@ -59,7 +59,7 @@ fn check_leaves(ctx: &mut Ctx, t: &SItem, instr: &[String], bound: &[String], pn
 pub fn run(ctx: &mut Ctx) {
     let (mut is, names) = new_iset();
     let cache = sorted_cache(&is);
-    let draws = ctx.n(12, 200);
+    let draws = ctx.n(30, 600);
     let mut case: u64 = 0;
     let lists: Vec<Vec<String>> = vec![vec![], vec!["INTEGER.+".to_string()], names.clone()];
     let bindsets: Vec<Vec<&str>> = vec![vec![], vec!["only"], vec!["a", "b", "c"]];
